@@ -47,6 +47,7 @@ type CallInfo struct {
 	Start   int
 	Applied bool // M-commit saw this call's transaction(s) being committed
 	AppliedTimes int
+	VersionIdx   int // index of the list version created by that commit
 }
 
 // HistEvent is a completed (or open) client-boundary event for the offline checker.
@@ -444,6 +445,7 @@ func (w *World) onCommit(op *vos.Op) {
 			}
 			ci.Applied = true
 			ci.AppliedTimes++
+			ci.VersionIdx = len(w.Versions)
 			w.Model = m
 			v.What = fmt.Sprintf("%s %s", ci.Kind, txnIDs(ci.Txns))
 			w.Versions = append(w.Versions, v)
